@@ -484,7 +484,20 @@ func c13Tags(s *c13Scn, out string) []string {
 		tags = append(tags, "other")
 	}
 	nt, nobj, multi, celAnn, filtered, helper := 0, 0, false, false, false, false
+	known := map[string]bool{}
+	for _, p := range s.Phases {
+		known[p] = true
+	}
 	for _, f := range s.Files {
+		if strings.Contains(f.C, "package-operator.run/phase: |") || strings.Contains(f.C, "package-operator.run/phase: >") {
+			tags = append(tags, "phase-blockscalar")
+		}
+		if strings.Contains(f.C, "package-operator.run/phase: \"") || strings.Contains(f.C, "package-operator.run/phase: '") {
+			tags = append(tags, "phase-quoted")
+		}
+		if packagetypes.IsTemplateFile(f.P) && strings.Contains(f.C, ".config.phase") {
+			tags = append(tags, "phase-templated")
+		}
 		if packagetypes.IsTemplateFile(f.P) {
 			nt++
 			if strings.Contains(f.C, "getFile") {
@@ -511,6 +524,20 @@ func c13Tags(s *c13Scn, out string) []string {
 				if o.Cel == 2 {
 					filtered = true
 				}
+				for _, kv := range o.A {
+					if kv[0] != manifests.PackagePhaseAnnotation {
+						continue
+					}
+					switch v := kv[1]; {
+					case v == "":
+						tags = append(tags, "phase-empty")
+					case known[v]:
+					case known[strings.TrimSpace(v)]:
+						tags = append(tags, "phase-padded") // a phase name with surrounding white space
+					default:
+						tags = append(tags, "phase-unknown")
+					}
+				}
 			}
 		}
 	}
@@ -535,6 +562,16 @@ func c13Tags(s *c13Scn, out string) []string {
 			for i, r := range g.R {
 				if r == 1 && s.CPaths[i].R == 0 {
 					tags = append(tags, "path-excluded")
+				}
+				if lit := s.CPaths[i].G; !strings.ContainsAny(lit, `*?[]{}\`) {
+					tags = append(tags, "cpath-literal")
+					if r == 1 {
+						tags = append(tags, "cpath-literal-match")
+					}
+					// a literal that does not match a path it is a mere string prefix of
+					if r == 0 && s.CPaths[i].R == 0 && strings.HasPrefix(g.P, strings.TrimSuffix(lit, "/")) {
+						tags = append(tags, "cpath-literal-prefix-of-kept-path")
+					}
 				}
 			}
 		}
@@ -570,19 +607,81 @@ type c13Gen struct {
 	conds  []c13Cond
 	bad    map[string]bool // malformed features to inject
 	data   []string        // non-YAML data files present in the package
+	inTmpl bool            // the document being generated is part of a .gotmpl file
+	exotic bool            // write (some) phase annotations in unusual but exact YAML forms
 }
 
 func (g *c13Gen) pick(xs ...string) string { return xs[g.rng.Intn(len(xs))] }
 func (g *c13Gen) chance(p float64) bool    { return g.rng.Float64() < p }
 
-func (g *c13Gen) phase() string {
+// c13PhaseShape is one way of writing the value of the phase annotation in YAML.  `Y` is put right
+// after "package-operator.run/phase:" (%s = the phase name; continuation lines are indented by six
+// blanks, i.e. below the annotation key); Exact tells whether the value read back is the name itself.
+type c13PhaseShape struct {
+	Name  string
+	Y     string
+	Exact bool
+	Tmpl  bool // needs a template (uses .config.phase instead of %s)
+}
+
+var c13PhaseShapes = []c13PhaseShape{
+	// exact: the annotation's value IS the phase name
+	{"plain", " %s", true, false},
+	{"dquoted", ` "%s"`, true, false},
+	{"squoted", " '%s'", true, false},
+	{"block-strip", " |-\n      %s", true, false},
+	{"folded-strip", " >-\n      %s", true, false},
+	{"tmpl", " {{ .config.phase }}", true, true},
+	{"tmpl-quote", " {{ .config.phase | quote }}", true, true},
+	{"tmpl-block-strip", " |-\n      {{ .config.phase }}", true, true},
+	// padded: surrounding white space belongs to the value, which therefore names no phase
+	{"pad-trailing-blank", ` "%s "`, false, false},
+	{"pad-leading-blank", ` " %s"`, false, false},
+	{"pad-both-squoted", " '  %s  '", false, false},
+	{"pad-trailing-newline", ` "%s\n"`, false, false},
+	{"pad-leading-tab", ` "\t%s"`, false, false},
+	{"block-clip", " |\n      %s", false, false},
+	{"folded-clip", " >\n      %s", false, false},
+	{"block-keep", " |+\n      %s\n", false, false},
+	{"tmpl-pad", ` "{{ .config.phase }} "`, false, true},
+	{"tmpl-printf-pad", ` {{ printf " %s" .config.phase | quote }}`, false, true},
+	{"tmpl-block-clip", " |\n      {{ .config.phase }}", false, true},
+	{"tmpl-folded-clip", " >\n      {{ .config.phase }}", false, true},
+}
+
+func (sh c13PhaseShape) yaml(phase string) string {
+	if sh.Tmpl {
+		return "    package-operator.run/phase:" + sh.Y + "\n"
+	}
+	return "    package-operator.run/phase:" + fmt.Sprintf(sh.Y, phase) + "\n"
+}
+
+func (g *c13Gen) shape(exact bool) c13PhaseShape {
+	for {
+		sh := c13PhaseShapes[g.rng.Intn(len(c13PhaseShapes))]
+		if sh.Exact == exact && (!sh.Tmpl || g.inTmpl) {
+			return sh
+		}
+	}
+}
+
+// phaseAnn returns the YAML line(s) of the phase annotation ("" = no annotation).
+// Templated shapes name .config.phase, which the scenario sets to the first manifest phase.
+func (g *c13Gen) phaseAnn() string {
+	ph := g.phases[g.rng.Intn(len(g.phases))]
 	switch {
 	case g.bad["unknownphase"] && g.chance(0.3):
-		return "nosuchphase"
+		// names no manifest phase: another word, another case, a longer / shorter name
+		ph = g.pick("nosuchphase", strings.ToUpper(ph[:1])+ph[1:], ph+"2", ph[:len(ph)-1], ph+"/"+ph)
 	case g.bad["missingphase"] && g.chance(0.3):
-		return ""
+		return g.pick("", "    package-operator.run/phase: \"\"\n", "    package-operator.run/phase: ''\n")
+	case g.bad["padphase"] && g.chance(0.35):
+		return g.shape(false).yaml(ph)
 	}
-	return g.phases[g.rng.Intn(len(g.phases))]
+	if g.exotic && g.chance(0.5) {
+		return g.shape(true).yaml(ph)
+	}
+	return "    package-operator.run/phase: " + ph + "\n"
 }
 
 func (g *c13Gen) celExpr() string {
@@ -624,8 +723,8 @@ func (g *c13Gen) objDoc(nameSuffix, valExpr string) string {
 		b.WriteString("  namespace: ns\n")
 	}
 	var ann []string
-	if ph := g.phase(); ph != "" {
-		ann = append(ann, fmt.Sprintf("    package-operator.run/phase: %s\n", ph))
+	if pa := g.phaseAnn(); pa != "" {
+		ann = append(ann, pa)
 	}
 	if g.chance(0.3) {
 		ann = append(ann, fmt.Sprintf("    package-operator.run/condition: '%s'\n", g.celExpr()))
@@ -704,6 +803,8 @@ func (g *c13Gen) helper() (name, def string) {
 }
 
 func (g *c13Gen) templateYAML(helpers []string, otherPaths []string) string {
+	g.inTmpl = true
+	defer func() { g.inTmpl = false }()
 	var b strings.Builder
 	nd := 1 + g.rng.Intn(3)
 	for i := 0; i < nd; i++ {
@@ -772,6 +873,32 @@ func (g *c13Gen) templateYAML(helpers []string, otherPaths []string) string {
 	return s
 }
 
+// c13Literals lists the globs WITHOUT any pattern syntax that can be cut out of a path: the path
+// itself, every folder above it with and without trailing slash, the path without extension and the
+// leading part of every path element up to a `-`, `.` or digit (`a` of `a-b.yaml`, `a/b` of `a/b-c.yaml`).
+func c13Literals(path string) []string {
+	seen := map[string]bool{}
+	var out []string
+	add := func(l string) {
+		if l != "" && !seen[l] {
+			seen[l] = true
+			out = append(out, l)
+		}
+	}
+	add(path)
+	for i := 0; i < len(path); i++ {
+		switch c := path[i]; {
+		case c == '/':
+			add(path[:i])
+			add(path[:i+1])
+		case (c == '-' || c == '.' || (c >= '0' && c <= '9')) && i > 0 && path[i-1] != '/':
+			add(path[:i])
+			add(path[:i] + "/")
+		}
+	}
+	return out
+}
+
 var c13PathPool = []string{
 	"a.yaml", "b.yml", "c.yaml", "a/b.yaml", "a-b.yaml", "a.b.yaml", "a/b/c.yaml", "a/c.yaml", "ab.yaml", "z.yaml",
 	"d/e.yaml", "d-e.yaml", "d.yaml", "A.yaml", "0.yaml", "a/b-c.yaml", "a/b/d.yml", "a0.yaml", "a/0.yaml", "d/e/f.yaml",
@@ -783,11 +910,15 @@ func (g *c13Gen) scenario() *c13Scn {
 	g.bad = map[string]bool{}
 	if g.chance(0.3) {
 		feats := []string{"unknownphase", "missingphase", "badcel", "nokind", "dupobj", "badyaml", "tmplparse", "tmplexec",
-			"badcond", "badcpath", "badglob", "doublesuffix"}
+			"badcond", "badcpath", "badglob", "doublesuffix", "padphase"}
 		for i := 0; i < 1+g.rng.Intn(2); i++ {
 			g.bad[feats[g.rng.Intn(len(feats))]] = true
 		}
 	}
+	if g.chance(0.1) { // the ways a phase annotation can fail to name a phase get a share of their own
+		g.bad[g.pick("unknownphase", "missingphase", "padphase")] = true
+	}
+	g.exotic = g.chance(0.3)
 	np := 1 + g.rng.Intn(4)
 	all := []string{"crds", "namespace", "rbac", "deploy", "post"}
 	g.rng.Shuffle(len(all), func(i, j int) { all[i], all[j] = all[j], all[i] })
@@ -797,6 +928,7 @@ func (g *c13Gen) scenario() *c13Scn {
 	if g.chance(0.3) {
 		s.Config["extra"] = map[string]any{"x": 1}
 	}
+	s.Config["phase"] = g.phases[0] // what templated phase annotations evaluate to
 	g.conds = nil
 	for i := 0; i < g.rng.Intn(3); i++ {
 		g.conds = append(g.conds, c13Cond{N: fmt.Sprintf("c%d", i), E: g.pick("config.flag", "!config.flag", `config.size == "big"`, "true")})
@@ -811,9 +943,27 @@ func (g *c13Gen) scenario() *c13Scn {
 	if s.Conds == nil {
 		s.Conds = []c13Cond{}
 	}
+	// file tree
+	idx := g.rng.Perm(len(c13PathPool))
+	nf := 1 + g.rng.Intn(6)
+	var yamlPaths []string
+	for _, i := range idx[:nf] {
+		yamlPaths = append(yamlPaths, c13PathPool[i])
+	}
+	// conditional paths: wildcard globs, and LITERAL globs (a file path, a folder name with or without
+	// trailing slash, a stem) taken from the package's own paths / the pool, so that they sit next to
+	// siblings that merely share the prefix (`a` vs `a-b.yaml`, `a/b` vs `a/b-c.yaml`, `d/` vs `d.yaml`)
 	s.CPaths = []c13CPath{}
-	for i := 0; i < g.rng.Intn(3); i++ {
+	for i := 0; i < g.rng.Intn(4); i++ {
 		cp := c13CPath{G: g.pick("a/**", "a/*", "d/**", "*.yml", "**/c.yaml", "a.yaml", "**"), E: g.celExpr()}
+		if g.chance(0.45) {
+			from := yamlPaths[g.rng.Intn(len(yamlPaths))]
+			if g.chance(0.3) {
+				from = c13PathPool[g.rng.Intn(len(c13PathPool))]
+			}
+			lits := c13Literals(from)
+			cp.G = lits[g.rng.Intn(len(lits))]
+		}
 		if g.chance(0.5) {
 			cp.E = g.pick("false", "config.flag", "!config.flag")
 		}
@@ -825,14 +975,6 @@ func (g *c13Gen) scenario() *c13Scn {
 			cp.E = "false"
 		}
 		s.CPaths = append(s.CPaths, cp)
-	}
-
-	// file tree
-	idx := g.rng.Perm(len(c13PathPool))
-	nf := 1 + g.rng.Intn(6)
-	var yamlPaths []string
-	for _, i := range idx[:nf] {
-		yamlPaths = append(yamlPaths, c13PathPool[i])
 	}
 	var helpers []string
 	files := []c13File{}
@@ -945,6 +1087,68 @@ func c13Table() []*c13Scn {
 			c13File{P: "b.yaml", C: "apiVersion: v1\nkind: ConfigMap\nmetadata:\n  name: nophase\n"})
 		s.Validate = v
 		out = append(out, s)
+	}
+	// conditional paths with a LITERAL glob: every literal that can be cut out of a pool path (file path,
+	// folder with / without trailing slash, stem) against a package holding the WHOLE pool, expression
+	// false; a few of them with a true and with an erroring expression and next to a wildcard glob
+	var lits []string
+	seen := map[string]bool{}
+	for _, p := range c13PathPool {
+		for _, l := range c13Literals(p) {
+			if !seen[l] {
+				seen[l] = true
+				lits = append(lits, l)
+			}
+		}
+	}
+	pool := func() []c13File {
+		var fs []c13File
+		for i, p := range c13PathPool {
+			c := c13Doc(fmt.Sprintf("p%d", i), "one", "")
+			if i%3 == 0 {
+				c += "---\n" + c13Doc(fmt.Sprintf("q%d", i), "two", "")
+			}
+			fs = append(fs, c13File{P: p, C: c})
+		}
+		return fs
+	}
+	for i, l := range lits {
+		s := base(pool()...)
+		s.CPaths = []c13CPath{{G: l, E: "false"}}
+		out = append(out, s)
+		if i%6 == 0 {
+			s = base(pool()...)
+			s.CPaths = []c13CPath{{G: l, E: "config.flag"}, {G: "d/**", E: "!config.flag"}}
+			out = append(out, s)
+			s = base(pool()...)
+			s.CPaths = []c13CPath{{G: "*.yml", E: "false"}, {G: l, E: "1 +"}}
+			out = append(out, s)
+		}
+	}
+	// phase annotation written in every shape (exact and padded; plain file and template), validation on / off
+	for _, sh := range c13PhaseShapes {
+		for _, v := range []bool{true, false} {
+			doc := "apiVersion: v1\nkind: ConfigMap\nmetadata:\n  name: x\n  annotations:\n" + sh.yaml("two") +
+				"    user/keep: x\ndata:\n  key: v\n"
+			path := "a.yaml"
+			if sh.Tmpl {
+				path = "a.yaml.gotmpl"
+			}
+			s := base(c13File{P: path, C: doc + "---\n" + c13Doc("y", "one", "")},
+				c13File{P: "b.yaml", C: c13Doc("z", "two", "")})
+			s.Config["phase"] = "two"
+			s.Validate = v
+			out = append(out, s)
+		}
+	}
+	// other values that name no phase: empty, different case, longer, shorter
+	for _, val := range []string{`""`, "Two", "two2", "tw", "one/two", `"two,three"`} {
+		for _, v := range []bool{true, false} {
+			s := base(c13File{P: "a.yaml", C: c13Doc("x", val, "") + "---\n" + c13Doc("y", "one", "")},
+				c13File{P: "b.yaml", C: c13Doc("z", "two", "")})
+			s.Validate = v
+			out = append(out, s)
+		}
 	}
 	return out
 }
